@@ -135,7 +135,11 @@ def fold_factories(im) -> FactoryFold:
     out = FactoryFold()
     class_names = [c.name for c in t.attrs_classes()]
     out.classes = len(class_names)
-    fields_of = {c.name: [Record("Attribute", {"name": f.name}) for f in c.fields] for c in t.attrs_classes()}
+    from .pymodel import MISSING as _MISSING
+    fields_of = {c.name: [Record("Attribute", {"name": f.name, "type": f.resolved,
+                                                 "default": ("NOTHING",) if f.default is _MISSING else f.default,
+                                                 "validator": f.validator})
+                          for f in c.fields] for c in t.attrs_classes()}
 
     def one_pass(order):
         tit = Interp(name=t.rel)
